@@ -56,6 +56,15 @@ fn real_main() -> i32 {
         sv::eng::cleanup_scratch();
         return code;
     }
+    if args[1] == "follow-exec" {
+        // child of the C10 monitor: the real FollowFileExecutor prints to this process' stdout
+        let Some(path) = args.get(2) else { return 2; };
+        let Ok(text) = std::fs::read_to_string(path) else { return 2; };
+        let Ok(case) = serde_json::from_str::<J>(&text) else { return 2; };
+        let code = sv::monitors::c10::follow_exec_child(&case);
+        sv::eng::cleanup_scratch();
+        return code;
+    }
     if args[1] == "run-case" {
         // child of the C18 monitor: fresh process = fresh hash seeds
         let Some(path) = args.get(2) else { return 2; };
